@@ -436,7 +436,6 @@ def run_trim(ctx, r):
             for (n, w) in find_path_avoiding(cfg, lambda q: q is wn, gate_edge=gate):
                 r.violation(g, g.loc(n.ast), "bytes are written although %s (path: %s)" % (what, w.brief()), w)
     # progress bookkeeping
-    wname = wc.args[0].id if isinstance(wc.args[0], ast.Name) else None
     upd = {}
     for n in cfg.nodes:
         if n.kind == "stmt" and isinstance(n.ast, ast.AugAssign):
